@@ -170,8 +170,9 @@ def set_aside_names(fn, par):
 
 def unshadowed_read_names(fn):
     """Names with a Load occurrence in the own block of `fn` (comprehensions included, nested def / lambda / class
-    bodies not) that is not lexically hidden by an iteration target of an enclosing comprehension: for these,
-    'comprehension targets aside' does not apply — the occurrence refers to the function's (or an outer) variable."""
+    or generator-expression bodies not) that is not lexically hidden by an iteration target of an enclosing
+    comprehension: for these, 'comprehension targets aside' does not apply — the occurrence refers to the function's
+    (or an outer) variable.  (Names that are targets of a comprehension ENCLOSING `fn` are taken out by the caller.)"""
     out = set()
 
     def visit(node, hidden):
@@ -186,6 +187,11 @@ def unshadowed_read_names(fn):
         if isinstance(node, ast.ClassDef):
             for d in node.decorator_list + node.bases + [k.value for k in node.keywords]:
                 visit(d, hidden)
+            return
+        if isinstance(node, ast.GeneratorExp):
+            # a block of its own (also in CPython 3.12, which inlines the other three kinds): only its first iterable
+            # is evaluated in the enclosing block
+            visit(node.generators[0].iter, hidden)
             return
         if isinstance(node, COMP_NODES):
             inner = hidden | comp_target_names(node)
@@ -204,6 +210,16 @@ def unshadowed_read_names(fn):
     body = fn.body if isinstance(fn.body, list) else [fn.body]
     for b in body:
         visit(b, frozenset())
+    return out
+
+
+def enclosing_comp_targets(fn, par):
+    out = set()
+    p = par.get(id(fn))
+    while p is not None:
+        if isinstance(p, COMP_NODES):
+            out |= comp_target_names(p)
+        p = par.get(id(p))
     return out
 
 
@@ -251,7 +267,7 @@ def impl_classes(impl):
         out.append({'node': fn, 'id': impl.ser.id_of(fn), 'name': getattr(fn, 'name', 'lambda'), 'lineno': fn.lineno,
                     'params': simple_names(a.params.keys()), 'bound': bound, 'globals': gl, 'nonlocals': nl,
                     'locals': bound - gl - nl, 'free_vars': free_vars, 'frees': frees,
-                    'aside': set_aside_names(fn, par), 'unshadowed': unshadowed_read_names(fn)})
+                    'aside': set_aside_names(fn, par), 'unshadowed': unshadowed_read_names(fn) - enclosing_comp_targets(fn, par)})
     return out
 
 
